@@ -312,6 +312,7 @@ class Proj:
         libs, cts, hdrs, exes, gens, cfgs = [], [], [], [], [], []
         locals_ = []          # (variable holding find_program() of an overridden program, the executable's variable)
         pps, runs = [], []    # cc.preprocess() results (lists of sources), run/alias targets
+        txts = []             # single-output custom targets producing a .txt (usable as generator input)
         ntargets = r.choice([2, 3, 4, 5, 6, 8]) if self.flavour != 'big' else r.choice([10, 14, 18])
         per_block = max(1, ntargets // max(1, len(order)))
         tcount = 0
@@ -374,7 +375,8 @@ class Proj:
                     srcs.append(r.choice(hdrs))
                 if gens and r.random() < 0.3:
                     gi = self.src(d, 'in', 'x\n')
-                    srcs.append('%s.process(%s)' % (r.choice(gens), ms(gi)))
+                    extra = (', ' + r.choice(txts)) if txts and r.random() < 0.3 else ''
+                    srcs.append('%s.process(%s%s)' % (r.choice(gens), ms(gi), extra))
                 if cfgs and r.random() < 0.3:
                     srcs.append(r.choice(cfgs))
                 if pps and r.random() < 0.35:
@@ -467,6 +469,8 @@ class Proj:
                     v, ms(name), ('input: [%s], ' % ', '.join(ins)) if ins else '',
                     ', '.join(ms(o) for o in outs), ', '.join(cmd), ''.join(', ' + k for k in kw)))
                 self.targets.append({'var': v, 'name': name, 'dir': d, 'kind': 'ct', 'bbd': bool(bbd), 'outs': outs})
+                if len(outs) == 1 and outs[0].endswith('.txt'):
+                    txts.append(v)
                 if any(o.endswith(('.c', '.h', '.inc')) for o in outs):
                     cts.append(v)
                     if len(outs) > 1 and r.random() < 0.5:
@@ -612,6 +616,7 @@ def gen_unity_project(rng, idx):
     if rng.random() < 0.5:
         counts.append(rng.randint(1, 2 * size + 1))
     rng.shuffle(counts)
+    uspecs = []
     use_ct = rng.random() < 0.35
     if use_ct:
         L.append("ugen = custom_target('ugen', output: ['ugen.c', 'ugen.h'], command: [find_program('true'), '@OUTPUT@'])")
@@ -626,6 +631,10 @@ def gen_unity_project(rng, idx):
             names.append('ugen')                  # the generated ugen.c counts as a source
         srcs = ', '.join(names) if names else "'u_empty.c'"
         shape = rng.choice(['both', 'both', 'extract', 'link_whole', 'lib_both'])
+        slist = [[x[1:-1], True] for x in names if x.startswith("'")] + ([['ugen.c', True]] if 'ugen' in names else [])
+        tn, user = {'both': ('ub%d' % k, 'libub%d.a' % k), 'lib_both': ('ul%d' % k, 'libul%d.a' % k),
+                    'extract': ('us%d' % k, 'ux%d' % k), 'link_whole': ('ua%d' % k, 'libuw%d.a' % k)}[shape]
+        uspecs.append({'target': tn, 'user': user, 'size': size, 'srcs': slist})
         if shape == 'both':
             L.append("ub%d = both_libraries('ub%d', %s)" % (k, k, srcs))
             targets.append({'var': 'ub%d' % k, 'name': 'ub%d' % k, 'dir': '', 'kind': 'both', 'bbd': True, 'dups': {}})
@@ -648,7 +657,7 @@ def gen_unity_project(rng, idx):
             targets.append({'var': 'uw%d' % k, 'name': 'uw%d' % k, 'dir': '', 'kind': 'slib', 'bbd': True, 'dups': {}})
     files['meson.build'] = '\n'.join(L) + '\n'
     return {'files': files, 'args': args, 'targets': targets, 'tests': [], 'flavour': 'unityx', 'idx': idx,
-            'unity': {'unity_size': size, 'source_counts': counts}}
+            'unity': {'unity_size': size, 'source_counts': counts}, 'unity_spec': uspecs}
 
 
 def _usrc(prefix, n):
@@ -678,6 +687,18 @@ CORPUS_PROJECTS = [
                'c.c': 'int c(void) { return 0; }\n'},
      'targets': [{'var': 'e', 'name': 'fe', 'dir': '', 'kind': 'exe', 'bbd': True}, {'var': 'w', 'name': 'fw', 'dir': '', 'kind': 'slib', 'bbd': True}],
      'tests': []},
+    # generator.process() fed with a custom target output, both layouts
+    {'idx': 'generator-input-from-custom-target-flat-layout', 'args': ['--layout=flat'], 'flavour': 'corpus',
+     'files': {'meson.build': "project('cg', 'c')\np = find_program('true')\ng = generator(p, output: '@BASENAME@.c', arguments: ['@INPUT@', '@OUTPUT@'])\n"
+                              "r = custom_target('r', output: 'r.txt', command: [p, '@OUTPUT@'])\ne = executable('e', 'm.c', g.process(r, 'x.in'))\n",
+               'm.c': 'int main(void){return 0;}\n', 'x.in': 'x\n'},
+     'targets': [{'var': 'e', 'name': 'e', 'dir': '', 'kind': 'exe', 'bbd': True}], 'tests': []},
+    {'idx': 'generator-input-from-custom-target-mirror-layout', 'args': [], 'flavour': 'corpus',
+     'files': {'meson.build': "project('ch', 'c')\np = find_program('true')\ng = generator(p, output: '@BASENAME@.c', arguments: ['@INPUT@', '@OUTPUT@'])\nsubdir('s')\n"
+                              "e = executable('e', 'm.c', g.process(r, 'x.in'))\n",
+               's/meson.build': "r = custom_target('r', output: 'r.txt', command: [p, '@OUTPUT@'])\n",
+               'm.c': 'int main(void){return 0;}\n', 'x.in': 'x\n'},
+     'targets': [{'var': 'e', 'name': 'e', 'dir': '', 'kind': 'exe', 'bbd': True}], 'tests': []},
     # alias_target / run_target inside a subproject
     {'idx': 'alias-of-run-target-in-subproject', 'args': [], 'flavour': 'corpus',
      'files': {'meson.build': "project('ca', 'c')\nsubproject('sub')\nr = run_target('rrt', command: [find_program('true')])\na = alias_target('ral', r)\n",
@@ -699,7 +720,7 @@ CORPUS_PROJECTS = [
                'm.c': 'int main(void){return 0;}\n', 'a/baz.c': 'int b(void){return 0;}\n'},
      'targets': [{'var': 'e', 'name': 'e', 'dir': '', 'kind': 'exe', 'bbd': True}], 'tests': []},
     # unity + extracted objects, duplicate-free C sources: counts that are / are not a multiple of unity_size
-    {'idx': 'unity-extracted-objects-default-size-4-8-3-5', 'args': ['--unity=on'], 'flavour': 'corpus',
+    {'idx': 'unity-extracted-objects-default-size-4-8-3-5', 'unity_spec': [{'target': 'la', 'user': 'libla.a', 'size': 4, 'srcs': [['a0.c', True], ['a1.c', True], ['a2.c', True], ['a3.c', True]]}, {'target': 'lb', 'user': 'e', 'size': 4, 'srcs': [['b0.c', True], ['b1.c', True], ['b2.c', True], ['b3.c', True], ['b4.c', True], ['b5.c', True], ['b6.c', True], ['b7.c', True]]}, {'target': 'lc', 'user': 'liblw.a', 'size': 4, 'srcs': [['c0.c', True], ['c1.c', True], ['c2.c', True]]}, {'target': 'ld', 'user': 'libld.a', 'size': 4, 'srcs': [['d0.c', True], ['d1.c', True], ['d2.c', True], ['d3.c', True], ['d4.c', True]]}], 'args': ['--unity=on'], 'flavour': 'corpus',
      'files': dict(list(_usrc('a', 4).items()) + list(_usrc('b', 8).items()) + list(_usrc('c', 3).items()) + list(_usrc('d', 5).items()) +
                    [('m.c', 'int main(void){return 0;}\n'), ('w.c', 'int w(void){return 0;}\n'),
                     ('meson.build', "project('cu1', 'c')\nla = both_libraries('la', %s)\nlb = static_library('lb', %s)\n"
@@ -709,7 +730,7 @@ CORPUS_PROJECTS = [
      'targets': [{'var': 'la', 'name': 'la', 'dir': '', 'kind': 'both', 'bbd': True}, {'var': 'e', 'name': 'e', 'dir': '', 'kind': 'exe', 'bbd': True},
                  {'var': 'lw', 'name': 'lw', 'dir': '', 'kind': 'slib', 'bbd': True}, {'var': 'ld', 'name': 'ld', 'dir': '', 'kind': 'both', 'bbd': True}],
      'tests': []},
-    {'idx': 'unity-extracted-objects-size-2-counts-4-2-3-1', 'args': ['--unity=on', '-Dunity_size=2', '-Ddefault_library=both'], 'flavour': 'corpus',
+    {'idx': 'unity-extracted-objects-size-2-counts-4-2-3-1', 'unity_spec': [{'target': 'la', 'user': 'libla.a', 'size': 2, 'srcs': [['a0.c', True], ['a1.c', True], ['a2.c', True], ['a3.c', True]]}, {'target': 'lb', 'user': 'liblb.a', 'size': 2, 'srcs': [['b0.c', True], ['b1.c', True]]}, {'target': 'lc', 'user': 'liblc.a', 'size': 2, 'srcs': [['c0.c', True], ['c1.c', True], ['c2.c', True]]}, {'target': 'ld', 'user': 'e', 'size': 2, 'srcs': [['d0.c', True]]}], 'args': ['--unity=on', '-Dunity_size=2', '-Ddefault_library=both'], 'flavour': 'corpus',
      'files': dict(list(_usrc('a', 4).items()) + list(_usrc('b', 2).items()) + list(_usrc('c', 3).items()) + list(_usrc('d', 1).items()) +
                    [('m.c', 'int main(void){return 0;}\n'),
                     ('meson.build', "project('cu2', 'c')\nla = library('la', %s)\nlb = both_libraries('lb', %s)\nlc = both_libraries('lc', %s)\n"
@@ -764,10 +785,10 @@ CORPUS_PROJECTS = [
      'files': {'meson.build': "project('c11', 'c')\ne = executable('tool', 'm.c', build_by_default: false)\nmeson.override_find_program('mytool', e)\n"
                               "p = find_program('mytool')\ntest('t', p)\n", 'm.c': 'int main(void){return 0;}\n'},
      'targets': [{'var': 'e', 'name': 'tool', 'dir': '', 'kind': 'exe', 'bbd': False}], 'tests': [{'name': 't', 'uses': ['e']}]},
-    {'idx': 'unity-both-libraries-duplicate-source', 'args': ['--unity=on', '-Dunity_size=2'], 'flavour': 'corpus',
+    {'idx': 'unity-both-libraries-duplicate-source', 'unity_spec': [{'target': 'foo1', 'user': 'libfoo1.a', 'size': 2, 'srcs': [['a.c', True], ['a.c', True], ['b.c', True]]}], 'args': ['--unity=on', '-Dunity_size=2'], 'flavour': 'corpus',
      'files': {'meson.build': "project('c12', 'c')\nb = both_libraries('foo1', 'a.c', 'a.c', 'b.c')\n", 'a.c': 'int a(void){return 0;}\n', 'b.c': 'int b(void){return 0;}\n'},
      'targets': [{'var': 'b', 'name': 'foo1', 'dir': '', 'kind': 'both', 'bbd': True, 'dups': {'c': 1}}], 'tests': []},
-    {'idx': 'unity-both-libraries-assembly-source', 'args': ['--unity=on', '-Dunity_size=2'], 'flavour': 'corpus',
+    {'idx': 'unity-both-libraries-assembly-source', 'unity_spec': [{'target': 'foo1', 'user': 'libfoo1.a', 'size': 2, 'srcs': [['a.c', True], ['b.c', True], ['c.S', False]]}], 'args': ['--unity=on', '-Dunity_size=2'], 'flavour': 'corpus',
      'files': {'meson.build': "project('c13', 'c')\nb = both_libraries('foo1', 'a.c', 'b.c', 'c.S')\n", 'a.c': 'int a(void){return 0;}\n', 'b.c': 'int b(void){return 0;}\n', 'c.S': ''},
      'targets': [{'var': 'b', 'name': 'foo1', 'dir': '', 'kind': 'both', 'bbd': True}], 'tests': []},
     {'idx': 'both-libraries-and-versioned-aliases', 'args': ['-Ddefault_library=both'], 'flavour': 'corpus',
@@ -776,6 +797,19 @@ CORPUS_PROJECTS = [
      'targets': [{'var': 'l', 'name': 'foo', 'dir': '', 'kind': 'lib', 'bbd': True}, {'var': 'b', 'name': 'bar', 'dir': '', 'kind': 'both', 'bbd': True},
                  {'var': 'e', 'name': 'e', 'dir': '', 'kind': 'exe', 'bbd': True}], 'tests': [{'name': 't', 'uses': ['e']}]},
 ]
+
+
+# the same corner cases under other layouts / unity (flat layout x every feature)
+for _idx, _args in (('cpp-modules-dyndep-takes-objects-of-plain-cpp-target', ['--layout=flat']),
+                    ('cpp-modules-dyndep-takes-objects-of-plain-cpp-target', ['--unity=on']),
+                    ('fortran-dyndep-takes-objects-of-fortran-and-c-targets', ['--layout=flat']),
+                    ('alias-of-run-target-in-subproject', ['--layout=flat']),
+                    ('generated-source-used-by-two-targets', ['--layout=flat', '--unity=on']),
+                    ('test-runs-overridden-program-not-built-by-default', ['--layout=flat']),
+                    ('test-depends-on-custom-target-not-built-by-default', ['--layout=flat']),
+                    ('both-libraries-and-versioned-aliases', ['--layout=flat', '--unity=on'])):
+    _b = next(p for p in CORPUS_PROJECTS if p['idx'] == _idx)
+    CORPUS_PROJECTS.append(dict(_b, idx=_idx + ' ' + ' '.join(_args), args=list(_b['args']) + _args))
 
 
 def write_tree(root, files):
@@ -886,24 +920,35 @@ def repo_projects(limit, rng):
         if any(s in n.lower() for s in skip):
             continue
         res.append(d)
-    if limit and len(res) > limit:
-        res = rng.sample(res, limit)
-    return res
+    variants = [[], ['--layout=flat'], ['--unity=on'], ['--layout=flat', '--unity=on'], ['-Ddefault_library=both'],
+                ['--layout=flat', '-Ddefault_library=both', '--unity=on', '-Dunity_size=2']]
+    if not limit:
+        # thorough: every project as it is, and once more under an option combination
+        return [(d, []) for d in res] + [(d, variants[1 + k % (len(variants) - 1)]) for k, d in enumerate(res)]
+    # quick: a fixed sample of feature-rich projects, each under a fixed option combination, plus a seeded sample
+    fixed = [d for d in res if os.path.basename(d).split(' ')[0] in QUICK_REPO_SAMPLE]
+    rest = [d for d in res if d not in fixed]
+    return [(d, variants[k % len(variants)]) for k, d in enumerate(fixed)] + [(d, []) for d in rng.sample(rest, min(len(rest), max(0, limit - len(fixed))))]
 
 
-def setup_repo_project(d, base):
-    tag = hashlib.sha1(d.encode()).hexdigest()[:10]
+# test cases/common numbers: object extraction, generators, custom targets (multi-output, index, link custom), subprojects (flat layout),
+# both libraries, test depends, find override, preprocess, unity, generated headers, link depends
+QUICK_REPO_SAMPLE = ('22', '105', '120', '140', '144', '170', '172', '178', '182', '186', '195', '208', '216', '226', '245', '256', '257', '259',
+                     '262', '272', '273', '277', '296')
+
+
+def setup_repo_project(da, base):
+    d, args = da
+    tag = hashlib.sha1((d + ' '.join(args)).encode()).hexdigest()[:10]
     src = os.path.join(base, 'r-' + tag)
     shutil.copytree(d, src, symlinks=True)
     bld = os.path.join(src, 'bld-verif')
-    args = []
-    tj = os.path.join(src, 'test.json')
     try:
         r = meson_cli(['setup'] + args + [bld, src], timeout=300)
         rc, out = r.returncode, (r.stdout + r.stderr)
     except subprocess.TimeoutExpired:
         rc, out = 124, 'timeout'
-    return {'rc': rc, 'out': out[-2000:], 'builddir': bld, 'srcdir': src, 'tag': tag, 'origin': d}
+    return {'rc': rc, 'out': out[-2000:], 'builddir': bld, 'srcdir': src, 'tag': tag, 'origin': d, 'args': args}
 
 
 ASM_SUFFIXES = ('.s', '.S', '.sx', '.asm', '.masm', '.ll')
@@ -974,6 +1019,81 @@ def unity_known_finding(verdict, rc, bld, rendering):
         if miss != set(range(compiled, (listed + size - 1) // size)):
             return False                      # not the objects the recorded mechanism would name
     return True
+
+
+def flat_generator_known(verdict, args, rendering, texts):
+    """known finding C04-generator-input-flat-layout: with --layout=flat a generator.process() input that is the
+    output of a custom target / executable is looked up in the source subdir (Generator.process_files:
+    File.from_built_file(e.get_builddir(), f)) although it is produced in meson-out.  Only when every offender
+    is such an input: the statement is a generator statement (output inside a private directory, rule
+    CUSTOM_COMMAND*) and meson-out/<basename> is what another statement produces."""
+    if '--layout=flat' not in args or not verdict or not any('.process(' in t for t in texts):
+        return False
+    stmts = parse_statements(rendering)
+    produced = set(o for outs, iouts, _, _ in stmts for o in outs + iouts)
+    rule_of = {o: rule for outs, _, rule, _ in stmts for o in outs}
+    for e in verdict:
+        if e[0] != 'missing-input' or e[2] in produced:
+            return False
+        if not rule_of.get(e[1], '').startswith('CUSTOM_COMMAND') or '.p/' not in e[1]:
+            return False
+        if 'meson-out/' + os.path.basename(e[2]) not in produced:
+            return False
+    return True
+
+
+def project_texts(srcdir):
+    res = []
+    for root, _, files in os.walk(srcdir):
+        for f in files:
+            if f == 'meson.build':
+                try:
+                    res.append(open(os.path.join(root, f), encoding='utf-8').read())
+                except Exception:
+                    pass
+    return res
+
+
+FEATURES = [('executable', 'executable('), ('static_library', 'static_library('), ('shared_library', 'shared_library('),
+            ('library', ' library('), ('both_libraries', 'both_libraries('), ('shared_module', 'shared_module('),
+            ('custom_target', 'custom_target('), ('custom_target multi-output', "output: ['"), ('capture', 'capture: true'),
+            ('depfile', 'depfile:'), ('depend_files', 'depend_files:'), ('build_always_stale', 'build_always_stale'),
+            ('generator', 'generator('), ('generator.process', '.process('), ('configure_file', 'configure_file('),
+            ('compiler.preprocess', '.preprocess('), ('alias_target', 'alias_target('), ('run_target', 'run_target('),
+            ('test', 'test('), ('benchmark', 'benchmark('), ('test depends', 'depends: ['), ('subdir', 'subdir('),
+            ('subproject', 'subproject('), ('declare_dependency', 'declare_dependency('), ('link_with', 'link_with:'),
+            ('link_whole', 'link_whole:'), ('extract_all_objects', 'extract_all_objects('), ('link_depends', 'link_depends:'),
+            ('override_find_program', 'override_find_program('), ('C++ modules (dyndep)', '-fmodules-ts'), ('fortran', "'fortran'"),
+            ('cpp', "'cpp'"), ('install', 'install: true'), ('version/soversion', "version: '"), ('build_by_default', 'build_by_default:'),
+            ('env', 'env: {'), ('name with blank', "('a b"), ('name with $', "('a$b"), ('name with |', "'a|b")]
+
+
+def unity_model_cases(rc, rendering):
+    """for every unity target of the project whose objects are extracted: the objects the manifest compiles
+    and the objects the user statement takes from it, next to the model's prediction (coq/Graph/Unity.v)"""
+    import re
+    out = []
+    stmts = parse_statements(rendering)
+    for sp in rc.get('unity_spec', []):
+        t = sp['target']
+        pdirs = sorted(set(os.path.dirname(o) for outs, _, _, _ in stmts for o in outs
+                           if os.path.basename(os.path.dirname(o)) in ('lib%s.so.p' % t, 'lib%s.a.p' % t)))
+        if len(pdirs) != 1:
+            continue
+        pd = pdirs[0] + '/'
+
+        def obj(path):
+            b = path[len(pd):]
+            m = re.match(r'^meson-generated_' + re.escape(t) + r'-unity(\d+)\.c\.o$', b)
+            return ('U' + m.group(1)) if m else ('S' + (b[:-2] if not b.startswith('meson-generated_') else b[len('meson-generated_'):-2]))
+        compiled = sorted(set(obj(o) for outs, _, _, _ in stmts for o in outs if o.startswith(pd) and o.endswith('.o')))
+        users = [ins for outs, _, _, ins in stmts if any(os.path.basename(o) == sp['user'] for o in outs)]
+        if len(users) != 1:
+            continue
+        extracted = sorted(set(obj(i) for i in users[0] if i.startswith(pd) and i.endswith('.o')))
+        case = ('unity', [str(sp['size'])] + [n + S1 + ('T' if c else 'F') for n, c in sp['srcs']])
+        out.append((case, S2.join(compiled), S2.join(extracted), sp))
+    return out
 
 
 def show(s):
@@ -1072,6 +1192,9 @@ def replay(ctx):
         print('targets the tests run or depend on :', [i for t in r['tests'] for i in runs_or_depends_on(t)])
         if built:
             print('model (fixed):', ctx.run_model([('testlike', [test_wire(t) for t in r['tests']])])[0].split(S2))
+    if 'name' in r:
+        print('validate_forbidden_targets(%r, in_root=%s) rejects: %s' % (r['name'], r['in_root'],
+              run_impl('c04.py', {'rejected': [[r['name'], r['in_root']]]})['rejected'][0]))
     if 'text' in r:
         o = run_impl('c04.py', {'texts': [r['text']]})['texts'][0]
         print('python reader:', show(o['parse']))
@@ -1206,6 +1329,25 @@ def run(ctx):
     else:
         reserved = []
 
+    # oracle (no model): every output the backend itself produces in the root of the build directory of a
+    # target-free project must be refused as a target name there
+    edir = os.path.join(ctx.mkscratch(), 'empty')
+    write_tree(edir, {'meson.build': "project('empty')\n"})
+    er = meson_cli(['setup', os.path.join(edir, 'b'), edir], timeout=240)
+    if er.returncode == 0:
+        em = run_impl('c04.py', {'manifests': [{'file': os.path.join(edir, 'b', 'build.ninja'), 'builddir': os.path.join(edir, 'b')}]})['manifests'][0]
+        own = sorted(set(o for outs, iouts, _, _ in parse_statements(em['parse']) for o in outs + iouts if '/' not in o))
+        acc = run_impl('c04.py', {'rejected': [[n, True] for n in own]})['rejected']
+        ctx.extra['backend_root_outputs_observed'] = own
+        for n, a in zip(own, acc):
+            ctx.count(('own-output', n))
+            if a != 'T':
+                ctx.violation('C04:names:backend-output-accepted:' + n,
+                              'the ninja backend itself produces %r in the root of every build directory, but validate_forbidden_targets '
+                              'accepts it as a target name there (%s)' % (n, a), {'name': n, 'in_root': True, 'implementation': a})
+            if reserved and n not in reserved and not n.startswith('meson-internal__'):
+                ctx.disagreements.append({'stream': 'names', 'backend_output_missing_from_model_table': n})
+    shutil.rmtree(edir, ignore_errors=True)
     # glue: run-target statement names and the path algebra of the preprocess model
     rn = [[sp, n] for sp in ('', 'sub', 'sp1', 'a b', 'x@@y') for n in ('srt', 'sal', 'a b', 'u@@v', 'ünï')]
     comps = ['', 'a', 'a/b', 'a/b/c', 'meson-out', 'meson-out/x.p', 'sub1/deep', 'b', 'a/c', 'x/y/z/w']
@@ -1287,6 +1429,19 @@ def run(ctx):
              'by_flavour': {}, 'args': {}}
     CH = 160
     all_results = []
+    feat = {}        # feature -> projects generated / configured / with --layout=flat / with unity
+
+    def note_features(rc, configured):
+        text = '\n'.join(b for f, b in rc['files'].items() if f.endswith('meson.build'))
+        flat, unity = '--layout=flat' in rc['args'], any(a.startswith('--unity=') for a in rc['args'])
+        for name, needle in FEATURES:
+            if needle in text:
+                e = feat.setdefault(name, {'projects': 0, 'configured': 0, 'flat': 0, 'unity': 0})
+                e['projects'] += 1
+                e['configured'] += bool(configured)
+                e['flat'] += flat
+                e['unity'] += unity
+    ustats = {'targets': 0, 'extract side agrees with repaired model': 0, 'extract side agrees with as-is model only': 0}
     for c0 in range(0, len(recs), CH):
         chunk = recs[c0:c0 + CH]
         setups = pmap(lambda rc: setup_project(rc, base), chunk)
@@ -1297,6 +1452,7 @@ def run(ctx):
             for a in rc['args']:
                 stats['args'][a.split('=')[0]] = stats['args'].get(a.split('=')[0], 0) + 1
             ctx.count(('project', s['tag']))
+            note_features(rc, s['rc'] == 0)
             if s['rc'] == 0 and os.path.exists(os.path.join(s['builddir'], 'build.ninja')):
                 stats['configured'] += 1
                 fl['configured'] += 1
@@ -1313,6 +1469,21 @@ def run(ctx):
                 if len(stats['crash_samples']) < 5:
                     stats['crash_samples'].append({'idx': rc['idx'], 'rc': s['rc'], 'tail': s['out'][-400:]})
         results = judge_manifests(ctx, built, items)
+        if built:
+            ucs = [(rc, u) for (rc, s), rs in zip(owners, results) for u in unity_model_cases(rc, rs.get('parse', 'ERR'))]
+            for (rc, (case, compiled, extracted, sp)), mo in zip(ucs, ctx.run_model([u[0] for _, u in ucs])):
+                m_comp, m_asis, m_fixed = mo.split(S1)
+                ctx.count(('unity', rc['idx'], sp['target']))
+                ustats['targets'] += 1
+                ustats['extract side agrees with repaired model'] += extracted == m_fixed
+                ustats['extract side agrees with as-is model only'] += extracted == m_asis != m_fixed
+                if compiled != m_comp or extracted not in (m_fixed, m_asis):
+                    ctx.disagreements.append({'stream': 'unity-objects', 'project': rc['idx'], 'target': sp, 'manifest_compiles': compiled.split(S2),
+                                              'manifest_extracts': extracted.split(S2), 'model_compiles': m_comp.split(S2),
+                                              'model_extracts_fixed': m_fixed.split(S2), 'model_extracts_as_is': m_asis.split(S2)})
+                if len(kc_cases) < 4000 and ustats['targets'] <= 6:
+                    kc_cases.append(case)
+                    kc_outs.append(mo)
         for (rc, s), it, rs in zip(owners, items, results):
             stats['statements'] += rs['statements']
             if rs['verdict']:
@@ -1329,6 +1500,8 @@ def run(ctx):
                 elif kinds == ['missing-input'] and '--layout=flat' in rc['args'] and any('.preprocess(' in b for b in rc['files'].values()) and \
                         all('preprocessor_' in e[1] or 'preprocessor_' in e[2] for e in rs['verdict']):
                     ident = 'C04:cli:preprocess-flat-layout'
+                elif flat_generator_known(rs['verdict'], rc['args'], rs.get('parse', 'ERR'), list(rc['files'].values())):
+                    ident = 'C04:cli:generator-input-flat-layout'
                 elif unity_known_finding(rs['verdict'], rc, s['builddir'], rs.get('parse', 'ERR')):
                     ident = 'C04:cli:unity-extracted-objects'
 
@@ -1344,31 +1517,38 @@ def run(ctx):
 
     phase('D-generated-projects')
     # repository test projects
-    rp = repo_projects(0 if thorough else 14, rng)
-    rstats = {'projects': len(rp), 'configured': 0}
+    rp = repo_projects(0 if thorough else 28, rng)
+    rstats = {'projects': len(rp), 'configured': 0, 'args': {}}
     for c0 in range(0, len(rp), CH):
         chunk = rp[c0:c0 + CH]
         setups = pmap(lambda d: setup_repo_project(d, base), chunk)
         items, owners = [], []
         for s in setups:
-            ctx.count(('repo-project', s['origin']))
+            ctx.count(('repo-project', s['origin'], tuple(s['args'])))
+            for a in (s['args'] or ['(as is)']):
+                rstats['args'][a] = rstats['args'].get(a, 0) + 1
             if s['rc'] == 0 and os.path.exists(os.path.join(s['builddir'], 'build.ninja')):
                 rstats['configured'] += 1
                 na, nt = intro_expected(s['builddir'])
                 items.append({'file': os.path.join(s['builddir'], 'build.ninja'), 'builddir': s['builddir'], 'need_all': na, 'need_test': nt,
-                              'label': os.path.basename(s['origin'])})
+                              'label': os.path.basename(s['origin']) + ' ' + ' '.join(s['args'])})
                 owners.append(s)
         results = judge_manifests(ctx, built, items)
         for s, it, rs in zip(owners, items, results):
             if rs['verdict']:
                 kinds = sorted(set(e[0] for e in rs['verdict']))
-                ctx.violation('C04:repo:%s:%s' % ('+'.join(kinds), os.path.basename(s['origin'])),
-                              'meson setup of %s succeeded but build.ninja breaks the property: %s' % (s['origin'], json.dumps(rs['verdict'][:5])),
-                              {'repo_project': s['origin'], 'offenders': rs['verdict'][:20], 'need_all': it['need_all'], 'need_test': it['need_test']})
+                ident = 'C04:repo:%s:%s%s' % ('+'.join(kinds), os.path.basename(s['origin']), ''.join(' ' + a for a in s['args']))
+                if flat_generator_known(rs['verdict'], s['args'], rs.get('parse', 'ERR'), project_texts(s['srcdir'])):
+                    ident = 'C04:cli:generator-input-flat-layout'
+                ctx.violation(ident,
+                              'meson setup %s of %s succeeded but build.ninja breaks the property: %s' % (' '.join(s['args']), s['origin'], json.dumps(rs['verdict'][:5])),
+                              {'repo_project': s['origin'], 'args': s['args'], 'offenders': rs['verdict'][:20], 'need_all': it['need_all'], 'need_test': it['need_test']})
         for s in setups:
             shutil.rmtree(s['srcdir'], ignore_errors=True)
     ctx.cov['traces_validated_against_impl'] += rstats['configured']
     ctx.extra['cli_projects'] = stats
+    ctx.extra['feature_coverage'] = {k: v for k, v in sorted(feat.items())}
+    ctx.extra['unity_objects_vs_model'] = ustats
     ctx.extra['repo_projects'] = rstats
 
     phase('D-repository-projects')
